@@ -187,6 +187,31 @@ def regenerate(repo, outdir):
         # D3: explicit length check in front of the GenericArray conversion, in all three EC files
         "ecSecretLenCheck": all(has(f, r"fn from_secret_bytes\(key: &\[u8\]\)[^}]*key\.len\(\)\s*!=\s*SECRET_KEY_LENGTH") for f in ec_files),
     }
+    # D10: EntryTagSet reads map keys as owned / Cow strings (not borrowed &str)
+    flags["ffiTagKeysOwned"] = has("src/ffi/tags.rs", r"next_entry::<\s*(Cow<[^>]*>|String)\s*,")
+    # D22: askar_store_generate_raw_key checks its out pointer
+    flags["ffiRawKeyChecksOut"] = has("src/ffi/store.rs", r"fn askar_store_generate_raw_key\([^{]*\{\s*catch_err!\s*\{[^}]*check_useful_c_ptr!\(out\)")
+    # D5: AES-CBC-HMAC decides on the tag before the CBC decryption / unpadding
+    cbc = read(repo, "askar-crypto/src/alg/aes/cbc_hmac.rs")
+    i_tag = cbc.find("if tag_match.unwrap_u8() != 1")
+    i_dec = cbc.find("decrypt_padded_mut")
+    if i_tag < 0 or i_dec < 0:
+        raise RuntimeError("cbc_hmac.rs: tag check or CBC decryption not found in the expected shape")
+    flags["cbcHmacTagFirst"] = i_tag < i_dec
+    # C20: redacting Debug impls (D9, D16, D17, PostgresStoreOptions, JwkParts): a hand-written `impl Debug for T`
+    # exists and the struct no longer derives Debug
+    def hand_debug(rel, ty):
+        src = read(repo, rel)
+        return re.search(r"impl(?:<[^>]*>)?\s+(?:core::fmt::|std::fmt::|fmt::)?Debug\s+for\s+" + ty + r"\b", src) is not None
+    flags["optionsDebugRedacts"] = hand_debug("askar-storage/src/options.rs", "Options")
+    flags["blsSecretDebugRedacts"] = hand_debug("askar-crypto/src/alg/bls.rs", "BlsSecretKey")
+    flags["blsKeyGenDebugRedacts"] = hand_debug("askar-crypto/src/alg/bls.rs", "BlsKeyGen")
+    flags["argon2DebugRedacts"] = hand_debug("askar-crypto/src/kdf/argon2.rs", "Argon2")
+    flags["pgOptionsDebugRedacts"] = hand_debug("askar-storage/src/backend/postgres/provision.rs", "PostgresStoreOptions")
+    flags["jwkPartsDebugRedacts"] = hand_debug("askar-crypto/src/jwk/parts.rs", "JwkParts")
+    # D1: into_uri writes '&' between query pairs;  D25: rekey refuses a blank raw key
+    flags["uriQueryAmpersand"] = has("askar-storage/src/options.rs", r"fn into_uri\(self\)[^#]*?uri\.push\('&'\)")
+    flags["rekeyRefusesBlankRaw"] = has("askar-storage/src/backend/sqlite/mod.rs", r"fn rekey\([^#]*?RawKey\s*&&\s*pass_key\.is_empty\(\)[^#]*?method\.resolve\(pass_key\)")
     fl = ["/- GENERATED by tools/extract.py from /repo on every run — do not edit. -/", "namespace Askar.Generated.Flags", ""]
     for k, v in flags.items():
         fl.append(f"def {k} : Bool := {'true' if v else 'false'}")
